@@ -246,11 +246,11 @@ PLAN = {
         level_note="The registry is process-global and never shrinks: each case uses fresh names and listings are projected. The linearizability verdict is exact for each recorded history; which histories occur depends on Go's scheduler.",
         technique="model-based property testing (rapid) + race detector + linearizability checking (porcupine) of recorded concurrent histories",
         quick=[rapid("seq", "TestSeq", 1000, shards=3, race=True, env={"GORACE": "halt_on_error=1"}), rapid("conc", "TestConc", 300, race=True, env={"GORACE": "halt_on_error=1"}, shrinktime="5s"),
-               rapid("burst", "TestBurst", 60, race=True, env={"GORACE": "halt_on_error=1"}, shrinktime="5s"), rapid("unknown", "TestUnknown", 500, race=True)],
+               rapid("burst", "TestBurst", 60, race=True, env={"GORACE": "halt_on_error=1"}, shrinktime="5s"), rapid("unknown", "TestUnknown", 500, race=True), enum("fresh", "TestFresh", shards=6, race=True)],
         thorough=[rapid("seq", "TestSeq", 2000, shards=16, race=True, env={"GORACE": "halt_on_error=1"}),
                   rapid("conc", "TestConc", 2000, shards=12, race=True, env={"GORACE": "halt_on_error=1"}, gomaxprocs=[2, 4, 8, 16], shrinktime="5s"),
                   rapid("burst", "TestBurst", 300, shards=8, race=False, env={"VERIF_C17_BURST_ROUNDS": 400}, gomaxprocs=[4, 8, 16, 16], shrinktime="5s"),
-                  rapid("unknown", "TestUnknown", 5000, race=True)],
+                  rapid("unknown", "TestUnknown", 5000, race=True), enum("fresh", "TestFresh", shards=6, race=True)],
     ),
     "C18": dict(
         pkg="c18",
@@ -262,8 +262,8 @@ PLAN = {
                     "renderer per-line widths versus the metric), plus native byte-level fuzzing of the same oracle. Exploration level."),
         level_note="Trusts go-runewidth as 'the library's own cell-width measure' (the property is relative to it) and utf8.RuneCountInString/len as the rune and byte measures.",
         technique="property-based testing (rapid) with algebraic/metamorphic relations + native Go fuzzing over bytes",
-        quick=[rapid("prop", "TestProp", 50000)],
-        thorough=[rapid("prop", "TestProp", 300000, shards=16), fuzz("fuzz", "FuzzC18", 60)],
+        quick=[rapid("prop", "TestProp", 50000), enum("longlines", "TestLongLines")],
+        thorough=[rapid("prop", "TestProp", 300000, shards=16), enum("longlines", "TestLongLines"), fuzz("fuzz", "FuzzC18", 60)],
     ),
     "C19": dict(
         pkg="c19",
